@@ -245,6 +245,45 @@ def check_large_enc(case, rec):
     check_bf3(case, rec)
 
 
+def check_interleave(case, rec):
+    """two SEPARATE files (own components, own session keys) serialised 'at the same time': writer A is stopped before every source line of the
+    library's bf3file/bec2file code while a complete to_binary of file B runs there (vlib/interleave); both outputs must equal the model's bytes"""
+    import sys as _sys
+
+    from vlib import interleave
+
+    rec.nt()
+    codes = interleave.codes_of([_sys.modules["bec2format.bf3file"], _sys.modules["bec2format.bec2file"]])
+    ca, cb = case["a"], case["b"]
+    wa = M.body(_model_comps(ca, ca["key"]), 0, ca["key"])
+    wb = M.body(_model_comps(cb, cb["key"]), 7, cb["key"])
+
+    def make_a():
+        f = sut.mk_bf3(ca)
+        return lambda: f.to_binary(0, session_key=ca["key"])
+
+    def make_b():
+        f = sut.mk_bf3(cb)
+        return lambda: f.to_binary(7, session_key=cb["key"])
+
+    ra, _, n, _ = interleave.run(make_a, make_b, codes, -1)
+    _cmp("to_binary (sequential)", ra, wa)
+    rec.cls("interleave.points", n)
+    step = max(1, n // 400)  # every line for small files, an even sample of ~400 points for large ones
+    for i in range(0, n, step):
+        try:
+            ra, rb, _, ran = interleave.run(make_a, make_b, codes, i)
+        except Exception as e:
+            raise Violation("file A's to_binary preempted at line event %d of %d by a complete to_binary of ANOTHER file: %s: %s" % (i, n, type(e).__name__, e))
+        if ra != wa or (ran and rb != wb):
+            raise Violation("two separate files serialised interleaved (A stopped at line event %d of %d): %s output differs from its sequential output" % (i, n, "A's" if ra != wa else "B's"))
+
+
+def strat_interleave(tier):
+    one = st.fixed_dictionaries(dict(comments=st.just([]), comps=st.lists(st.one_of(S.plain_component(60), S.enc_component(60)), min_size=1, max_size=3), key=S.session_key(allow_default=False)))
+    return st.fixed_dictionaries(dict(a=one, b=one))
+
+
 def check_many(case, rec):
     rec.cls("entries>255" if len(case["comps"]) > 255 else "entries=255")
     check_bf3(case, rec)
@@ -254,6 +293,7 @@ def parts(tier):
     return [
         Part("many_entries", check=check_many, enum=enum_many_entries, quick=(4, 0), thorough=(8, 0)),
         Part("large_enc", check=check_large_enc, enum=enum_large_enc, quick=(3, 0), thorough=(5, 0)),
+        Part("interleave", check=check_interleave, strategy=strat_interleave, quick=(8, 2), thorough=(16, 10)),
         Part("bf3_layout", check=check_bf3, strategy=strat_bf3, quick=(16, 400), thorough=(16, 4000)),
         Part("bec2_layout", check=check_bec2, strategy=strat_bec2, quick=(16, 150), thorough=(16, 1200)),
     ]
